@@ -661,7 +661,7 @@ hwloc_get_cache_type_depth (hwloc_topology_t topology,
     hwloc_obj_t obj = hwloc_get_obj_by_depth(topology, depth, 0);
     if (!obj)
       break;
-    if (!hwloc_obj_type_is_dcache(obj->type) || obj->attr->cache.depth != cachelevel)
+    if (!hwloc_obj_type_is_cache(obj->type) || obj->attr->cache.depth != cachelevel)
       /* doesn't match, try next depth */
       continue;
     if (cachetype == (hwloc_obj_cache_type_t) -1) {
